@@ -13,6 +13,7 @@
 //     and its JSON text ("{\"a\":\"x\"}", "[1,2]"); a string that is the JSON text of a scalar and
 //     that scalar;
 //   - ordinary changes, changes outside the projection and re-deliveries in between.
+//
 // The transformations are applied at a random position of the value tree of a slot
 // (Service: spec.ports[i].targetPort - an IntOrString -, metadata.annotations, spec.selector;
 // ConfigMap: data, data values, metadata.annotations, a free field .x holding a small tree).
@@ -369,8 +370,14 @@ func (g *gen) alikeMutate(o map[string]interface{}) map[string]interface{} {
 		note(how)
 		return c
 	}
-	nv, how := g.alikeOf(c["data"])
-	c["data"] = nv
+	// data stays a map (the filters of the class index it: `.data.k` must not fail)
+	data := c["data"].(map[string]interface{})
+	nv, how := g.alikeOf(data)
+	if m, ok := nv.(map[string]interface{}); ok {
+		c["data"] = m
+	} else {
+		data["k"] = nv
+	}
 	note(how)
 	return c
 }
